@@ -2,7 +2,11 @@
 
 package core
 
-import "errors"
+import (
+	"bytes"
+	"compress/zlib"
+	"errors"
+)
 
 // vStubZlib stands in for filters.zlibDecompress (compress/zlib is not executable in the engine):
 // an injective marker codec - a "compressed" stream is 'Z' followed by the payload.
@@ -147,5 +151,44 @@ func H_C05_flate_real_zlib() {
 	for i := 0; i < n && i < len(out); i++ {
 		vAssert("roundtrip", out[i] == payload[i])
 	}
+	vReach("end")
+}
+
+// H_C05_flate_highly_compressible: long constant or periodic data - which deflate shrinks by three orders of magnitude -
+// decodes completely; nothing is cut off and no error is raised.
+//
+//symgo:harness prop=C05 kernel=K5-flate-compressible loop=400000 steps=400000000
+//symgo:desc payload of 36000 bytes: all zero, all 0xFF, or period-4 (enumerated), compressed in the harness by the real compress/zlib writer (interpreted), decoded through Stream.Decode with FlateDecode alone or with PNG predictor 10 over 36 rows of 999 data bytes + tag 0 (enumerated): the result has the full length and the same bytes
+func H_C05_flate_highly_compressible() {
+	const n = 36000
+	kind := vAnyIntIn(0, 2)
+	payload := make([]byte, n)
+	for i := range payload {
+		switch kind {
+		case 1:
+			payload[i] = 0xFF
+		case 2:
+			payload[i] = byte("abcd"[i%4])
+		}
+	}
+	withPredictor := vAnyIntIn(0, 1) == 1
+	var buf bytes.Buffer
+	zw := zlib.NewWriter(&buf)
+	_, werr := zw.Write(payload)
+	cerr := zw.Close()
+	vAssert("harness-compressor-ok", werr == nil && cerr == nil)
+	s := &Stream{Dict: Dict{"Filter": Name("FlateDecode")}, Data: buf.Bytes()}
+	want := payload
+	if withPredictor {
+		// read the same bytes as 36 PNG rows of 1000: a tag byte (0 for the zero payload = None; otherwise the row's
+		// first byte must be a valid tag, so only the zero payload takes this branch)
+		vAssume(kind == 0)
+		s.Dict["DecodeParms"] = Dict{"Predictor": Int(10), "Columns": Int(999)}
+		want = make([]byte, 36*999)
+	}
+	out, err := s.Decode()
+	vAssert("decodes", err == nil)
+	vAssert("full-length", len(out) == len(want))
+	vAssert("same-bytes", bytes.Equal(out, want))
 	vReach("end")
 }
